@@ -6,7 +6,10 @@ scenario (what each task does) and judges the observed process output on its own
 
 Scenario = a small dodo.py: 2-5 tasks, each one of
    ok / fail (action returns False) / error (action raises) / utd (up-to-date: `uptodate: [True]`, made
-   up-to-date by a silent first run) / ignored (`doit ignore` before the run) / group (no actions),
+   up-to-date by a silent first run) / ignored (`doit ignore` before the run) / group (no actions) /
+   failq, errorq (a python-action RETURNS the failure object TaskFailed(..., report=False) resp.
+   TaskError(..., report=False): a failure the console-family reporters are asked not to print; always a
+   python-action, also in scenarios that otherwise use cmd-actions),
 with task_dep / setup edges to later tasks (every task is waited for by at most one other task, so that
 no set-iteration order is an input), verbosity 0/1/2, actions printing a token on stdout and/or stderr,
 teardown actions that print and/or fail, names that may be private (`_t3`); --continue on/off;
@@ -25,6 +28,8 @@ import concurrent.futures, json, os, re, subprocess, sys
 import common
 
 TOK_OUT, TOK_ERR, TOK_TDOUT, TOK_TDERR = 100, 200, 300, 400
+QUIET = {'failq': 'fail', 'errorq': 'error'}      # kinds whose failure object carries report=False -> what they do
+FAILING = ('fail', 'error', 'failq', 'errorq')
 KINDS = {'TaskFailed': 0, 'TaskError': 1, 'UnmetDependency': 2, 'DependencyError': 3, 'SetupError': 4}
 REPORTERS = {'console': 'RConsole', 'executed-only': 'RExecutedOnly', 'zero': 'RZero', 'error-only': 'RErrorOnly',
              'json': 'RJson'}
@@ -50,6 +55,12 @@ def mk_action(t):
             return False
         if t['kind'] == 'error':
             raise Exception('the action of this task breaks')
+        if t['kind'] == 'failq':
+            from doit.exceptions import TaskFailed
+            return TaskFailed('this task fails and asks not to be printed', report=False)
+        if t['kind'] == 'errorq':
+            from doit.exceptions import TaskError
+            return TaskError('this task breaks and asks not to be printed', report=False)
         return True
     return act
 
@@ -104,7 +115,7 @@ def gen_scenario(rng, flavour=None, reporter=None):
     cont = rng.random() < 0.6
     tasks = []
     for i in range(n):
-        kind = rng.choices(['ok', 'fail', 'error', 'utd', 'ignored', 'group'], weights=[10, 4, 3, 3, 2, 1])[0]
+        kind = rng.choices(['ok', 'fail', 'error', 'utd', 'ignored', 'group', 'failq', 'errorq'], weights=[10, 4, 3, 3, 2, 1, 2, 2])[0]
         td = rng.random() < 0.45
         tasks.append(dict(kind=kind, private=rng.random() < 0.12, verbosity=rng.choice([0, 1, 2, 2]),
                           out=rng.random() < 0.7, err=rng.random() < 0.6, task_dep=[], setup=[],
@@ -151,13 +162,16 @@ def chain(sc):
 
 def normalise(sc):
     """keep the observable of a parallel run independent of the schedule (see module doc)"""
-    fails = any(t['kind'] in ('fail', 'error') for t in sc['tasks'])
+    fails = any(t['kind'] in FAILING for t in sc['tasks'])
     if sc['flavour'] != 'serial' and not sc['cont'] and fails:
         chain(sc)
     if sc['flavour'] == 'thread':
         # python-actions running in two threads at once capture each other's output (known finding of C17,
-        # thread-overlap-python-actions): the thread runner is driven with cmd-actions only
+        # thread-overlap-python-actions): the thread runner is driven with cmd-actions only ...
         sc['act'] = 'cmd'
+        # ... except for the tasks that must return a failure OBJECT (python-action): then nothing runs next to them
+        if any(t['kind'] in QUIET for t in sc['tasks']):
+            chain(sc)
     for t in sc['tasks']:
         if not t['td']:
             t['td_out'] = t['td_err'] = t['td_fail'] = False
@@ -179,6 +193,13 @@ def family():
                     T('group', task_dep=[1]), T('ok', td=True, td_err=True)], cont=False),
         # first failure stops the run (chain)
         dict(tasks=[T('ok', task_dep=[1]), T('fail', task_dep=[2], td=True, td_out=True, td_err=True), T('ok', td=True, td_out=True)], cont=False),
+        # failures that carry report=False (TaskFailed / TaskError objects returned by python-actions) next to ordinary
+        # ones and to the unmet dependency they cause, --continue (chained under the thread runner: the last task runs first)
+        dict(tasks=[T('ok', td=True, td_out=True), T('fail', verbosity=0), T('ok', task_dep=[3]), T('errorq', verbosity=0),
+                    T('ok', verbosity=1), T('failq', verbosity=1, td=True, td_err=True)], cont=True),
+        # ... and such a failure cutting the run short (chain)
+        dict(tasks=[T('ok', task_dep=[1]), T('errorq', task_dep=[2], td=True, td_out=True), T('ok', td=True, td_out=True)], cont=False),
+        dict(tasks=[T('ok', task_dep=[1]), T('failq', verbosity=0)], cont=False),
     ]
     # dependency cycles, the two ways the dispatcher finds one: on one ancestor chain (_gen_node) and as nodes that
     # all wait for each other with nothing executing ("hold on" / cyclic_hold_error); a task that runs before
@@ -209,7 +230,8 @@ def family():
 def spec_of(sc):
     spec = []
     for i, t in enumerate(sc['tasks']):
-        spec.append(dict(name=tname(i, t['private']), kind=t['kind'], verbosity=t['verbosity'], act=sc['act'],
+        spec.append(dict(name=tname(i, t['private']), kind=t['kind'], verbosity=t['verbosity'],
+                         act='py' if t['kind'] in QUIET else sc['act'],
                          out=(TOK_OUT + i) if t['out'] and t['kind'] != 'group' else 0,
                          err=(TOK_ERR + i) if t['err'] and t['kind'] != 'group' else 0,
                          task_dep=[tname(j, sc['tasks'][j]['private']) for j in t['task_dep']],
@@ -381,17 +403,17 @@ def coq_case(sc, idx):
     tb, ti = [], []
     for i, t in enumerate(sc['tasks']):
         check = 'CkUpToDate' if t['kind'] == 'utd' else 'CkRun'
-        outc = {'fail': 'OFail', 'error': 'OError'}.get(t['kind'], 'OOk')
+        outc = {'fail': 'OFail', 'error': 'OError', 'failq': 'OFail', 'errorq': 'OError'}.get(t['kind'], 'OOk')
         tb.append('| %d => Some (Build_task %s %s [] %s %s %s false %s [] [] [])' % (
             i, nl(t['task_dep']), nl(t['setup']), b(t['td']), b(t['kind'] == 'ignored'), check, outc))
         has_out = t['out'] and t['kind'] != 'group'
         has_err = t['err'] and t['kind'] != 'group'
-        ti.append('| %d => Build_tattr %s %s %d %s %s %s %s %s' % (
+        ti.append('| %d => Build_tattr %s %s %d %s %s %s %s %s %s' % (
             i, b(t['kind'] != 'group'), b(t['private']), t['verbosity'],
             nl([TOK_OUT + i] if has_out else []), nl([TOK_ERR + i] if has_err else []),
-            nl([TOK_TDOUT + i] if t['td_out'] else []), nl([TOK_TDERR + i] if t['td_err'] else []), b(t['td_fail'])))
+            nl([TOK_TDOUT + i] if t['td_out'] else []), nl([TOK_TDERR + i] if t['td_err'] else []), b(t['td_fail']), b(t['kind'] not in QUIET)))
     defs = ('Definition rtb%d (n : name) : option task := match n with %s | _ => None end.\n'
-            'Definition rti%d (n : name) : tattr := match n with %s | _ => Build_tattr false false 0 [] [] [] [] false end.'
+            'Definition rti%d (n : name) : tattr := match n with %s | _ => Build_tattr false false 0 [] [] [] [] false true end.'
             % (idx, ' '.join(tb), idx, ' '.join(ti)))
     common_args = 'rtb%d (fun _ _ => 0) (fun _ => 0) %s false' % (idx, b(sc['cont']))
     tail = '%s rti%d %s %d' % (nl(sc['selected']), idx, REPORTERS[sc['reporter']], sc['fv'])
@@ -428,9 +450,9 @@ def truth(sc):
                 r = ('ignore', False, None)
             elif 'fail' in sd:
                 r = ('fail', False, 2)
-            elif t['kind'] == 'fail':
+            elif t['kind'] in ('fail', 'failq'):
                 r = ('fail', True, 0)
-            elif t['kind'] == 'error':
+            elif t['kind'] in ('error', 'errorq'):
                 r = ('fail', True, 1)
             else:
                 r = ('success', True, None)
@@ -455,6 +477,8 @@ def oracle(sc, res, info):
                  'exit code %d, the teardown error is reported nowhere' % (executed_td_fail[0], rc))]
     any_fail = any(r[0] == 'fail' for r in tr.values())
     complete = (sc['cont'] or not any_fail) and not sc['cycle']
+    # the task's own failure carries report=False (an unmet dependency of the same task is an ordinary failure)
+    quiet = {i: (sc['tasks'][i]['kind'] in QUIET and tr[i][1]) for i in range(n)}
 
     if rep == 'json':
         doc = info['doc']
@@ -474,6 +498,12 @@ def oracle(sc, res, info):
                     continue
                 seen[i] = seen.get(i, 0) + 1
                 want, exe, kind = tr[i]
+                # no model, no run structure: its actions were started and they do not succeed -> it failed, and that
+                # is what the document has to say (whatever the failure object asks the console reporters to print)
+                if r.get('started') is not None and sc['tasks'][i]['kind'] in FAILING and r.get('result') != 'fail':
+                    bad.append(('json-task-result-wrong', 'the actions of task %d (%s) were started and did not succeed, but it is '
+                                'listed with result %r' % (i, sc['tasks'][i]['kind'], r.get('result'))))
+                    continue
                 if r.get('result') is None:
                     if complete:
                         bad.append(('json-task-result-wrong', 'task %d listed without a result in a run that was not cut short' % i))
@@ -536,7 +566,7 @@ def oracle(sc, res, info):
                                 % (rep, c, code, i, want, exe)))
             fcode = {'console': 13, 'executed-only': 13, 'error-only': 14}.get(rep)
             got = sum(v for c, v in cnt.items() if c // 1000 in ([pack(13, i) // 1000, pack(14, i) // 1000]))
-            wantn = 1 if (fcode and want == 'fail') else 0
+            wantn = 1 if (fcode and want == 'fail' and not quiet[i]) else 0      # report=False: no failure report at all
             if got > 1 or (got == 1 and not wantn) or (got == 0 and wantn and processed_all):
                 bad.append(('console-result-line-count', 'reporter %s printed %d failure report(s) for task %d (%s)' % (rep, got, i, want)))
             if got == 1 and wantn and cnt.get(pack(fcode, i, kind), 0) != 1:
@@ -544,9 +574,20 @@ def oracle(sc, res, info):
         if rc in (0, 1, 2) and not sc['cycle']:
             kinds = [c % 1000 for c in ch if c // 1000000 in (13, 14)]
             if rep in ('console', 'executed-only', 'error-only'):
-                want_rc = 0 if not kinds else (1 if all(k == 0 for k in kinds) else 2)
-                if rc != want_rc:
-                    bad.append(('exit-code', 'exit code %d, failures reported on the console (kinds %s) mean %d' % (rc, kinds, want_rc)))
+                # failures that are not printed (report=False) count all the same.  Which of them happened: all of them in
+                # a run that was not cut short; in a run cut short exactly one failure happened -- the printed one, else
+                # one of the quiet ones
+                qk = [tr[i][2] for i in range(n) if quiet[i]]
+                code = lambda ks: 0 if not ks else (1 if all(k == 0 for k in ks) else 2)
+                if complete:
+                    want_rcs = {code(kinds + qk)}
+                elif kinds or not qk:
+                    want_rcs = {code(kinds)}
+                else:
+                    want_rcs = {code([k]) for k in qk}
+                if rc not in want_rcs:
+                    bad.append(('exit-code', 'exit code %d, failures reported on the console (kinds %s) and failures not to be '
+                                'printed (kinds %s) mean %s' % (rc, kinds, qk, sorted(want_rcs))))
         if sc['cycle'] and rc != 3:
             bad.append(('exit-code', 'dependency cycle but exit code %d' % rc))
     return bad
@@ -586,6 +627,9 @@ def part_reporters(ctx, out):
         defs, expr = coq_case(sc, idx)
         cases.append(dict(model=expr, expected=expected, defs=defs, sc=sc, res=res))
         out.count('rep:%s:%s:rc%s' % (sc['reporter'], sc['flavour'], res['rc']))
+        tr_sc = truth(sc)
+        if any(t['kind'] in QUIET and tr_sc[i][1] for i, t in enumerate(sc['tasks'])):
+            out.count('rep:failure-with-report-false:%s:%s' % (sc['reporter'], sc['flavour']))
         if len(expected) >= 12:
             out.nontrivial.add(('rep', sc['reporter'], sc['flavour'], tuple(expected)))
         seen = set()
@@ -615,7 +659,7 @@ def part_reporters(ctx, out):
         'reporter layer: runs under the real parallel runners are compared as sorted bags (arrival order is not controlled); '
         'parallel cases without --continue that contain a failure are chains',
         'reporter layer: console message bodies / tracebacks / timestamps are not compared (abstracted in Model/Report.v)']
-    out.rule += (' || reporter layer (c19_reporters.py): 2-5 task scenarios (ok/fail/error/up-to-date/ignored/group, task_dep + setup, verbosity 0-2, '
+    out.rule += (' || reporter layer (c19_reporters.py): 2-5 task scenarios (ok/fail/error/up-to-date/ignored/group/failure objects with report=False, task_dep + setup, verbosity 0-2, '
                  'printing actions, printing/failing teardowns, private names, --continue, --failure-verbosity, cycle) x 5 built-in reporters x '
                  '{serial, -n 2 -P thread, -n 2} through `python -m doit run`; non-trivial = distinct observation with >= 12 codes')
     return out
